@@ -26,7 +26,7 @@ theorem nthElem_ok {elems : List Trace} {k : Nat} {t : Trace} (h : nthElem elems
 /-- `Vmap.edit_index`: only element `idx` is edited (by the inner function's own edit, on that
     element's slice of the arguments), every other element is kept as it is, and the weight is the
     element's weight. -/
-theorem vmap_index_edit (ds : DistSem) (m : Mode) (p : Prog) (axes : List Bool) (key : KeyPath)
+theorem vmap_index_edit (ds : DistSem) (m : Mode) (p : Prog) (axes : List Ax) (key : KeyPath)
     (args ret : Val) (elems : List Trace) (idx : Nat) (c : CMap) (sel : Sel) (r : Res)
     (h : editIndex ds m (.vmap p axes) key (.vec args ret elems) idx c sel = .ok r) :
     ∃ (hk : idx < elems.length) (as ea : List Val) (r' : Res), argList args = .ok as ∧ sliceArgs axes as idx = .ok ea ∧
@@ -39,7 +39,7 @@ theorem vmap_index_edit (ds : DistSem) (m : Mode) (p : Prog) (axes : List Bool) 
   exact ⟨hk, as, ea, r', has, hea, hr', rfl, rfl, rfl⟩
 
 /-- The weight of an index Update on a vmap trace is new score − old score of the whole trace. -/
-theorem vmap_index_update_weight (ds : DistSem) (p : Prog) (axes : List Bool) (key : KeyPath)
+theorem vmap_index_update_weight (ds : DistSem) (p : Prog) (axes : List Ax) (key : KeyPath)
     (args ret : Val) (elems : List Trace) (idx : Nat) (c : CMap) (sel : Sel) (r : Res)
     (hs : ∀ t ∈ elems, Shape p t) (hsafe : Safe false p)
     (h : editIndex ds .upd (.vmap p axes) key (.vec args ret elems) idx c sel = .ok r) :
